@@ -444,7 +444,12 @@ class C10(Suite):
     trusted_extra = ["the DSL -> real-object instantiation and the object-graph -> DSL translation in harness/corr/c10.py"]
 
     def setup(self, tier, rng):
+        import logging
+        logging.disable(logging.CRITICAL)          # the library logs every failed parse
         self._why = {}
+        self._line = {}
+        self._valid = None
+        self._fact = None
 
     # ---------------------------------------------------------------------------------------- cases
     def cases(self, tier, rng):
@@ -452,6 +457,7 @@ class C10(Suite):
         yield from self.src_cases(rng, 400 if quick else 6000)
         yield from self.grid_cases(rng, quick)
         yield from self.random_programs(rng, 2500 if quick else 60000)
+        yield from self.lib_cases(rng, quick)
 
     def src_cases(self, rng, n):
         for _ in range(n):
@@ -560,12 +566,118 @@ class C10(Suite):
             data = bytes(rng.choice(ALPHA) if rng.random() < 0.9 else rng.randint(0, 255) for _ in range(ln))
             yield {"op": "eng", "states": g.states, "top": top, "fam": fam, "chunks": split_chunks(rng, data)}
 
+    # ---------------------------------------------------------------------------------------- library
+    def lib_setup(self, rng):
+        """which (machine, bytes) pairs are valid encodings: found by running the real machine without a
+        limit (ok, terminal, everything consumed)"""
+        from corr import c10_lib as L
+        if getattr(self, "_valid", None) is not None:
+            return
+        self._fact = L.factories()
+        self._inst = {}
+        cands = {}
+        for name, b in L.produced(rng):
+            cands.setdefault(name, []).append(b)
+        big = [n for n in self._fact if n in (
+            "CPF", "CIP", "unconnected_send", "enip_machine", "enip_header", "send_data", "list_identity",
+            "list_services", "list_interfaces", "legacy", "identity_object", "communications_service",
+            "legacy_CPF_0x0001", "register", "connection_data", "connection_ID", "IFACEADDRS") or n in L.SHARED]
+        corpus = L.corpus_bytes()
+        derived = []
+        for _, pkt in corpus:              # payloads of the captured frames
+            if len(pkt) >= 24 and int.from_bytes(pkt[2:4], "little") == len(pkt) - 24:
+                derived.append(pkt[24:])
+        pool = [b for _, b in corpus] + derived + L.nested_inputs([b for _, b in corpus])
+        self._valid = []
+        seen = set()
+        for name in sorted(self._fact):
+            for b in cands.get(name, []) + (pool if name in big else []):
+                if (name, b) in seen:
+                    continue
+                seen.add((name, b))
+                c = {"op": "lib", "m": name, "mode": "wrap" if name in L.SHARED else "kw", "limit": None,
+                     "chunks": [b.hex()]}
+                out = self.impl_lib(c)
+                t = out.split()
+                if t[0] == "ok" and t[3] == "1" and int(t[1]) == len(b) and (len(b) > 0 or name in cands):
+                    self._valid.append((name, b))
+
+    def lib_cases(self, rng, quick):
+        from corr import c10_lib as L
+        self.lib_setup(rng)
+        per = 3 if quick else 40
+        byname = {}
+        for name, b in self._valid:
+            byname.setdefault(name, []).append(b)
+        for name in sorted(byname):
+            encs = byname[name]
+            picks = encs if len(encs) <= per else rng.sample(encs, per)
+            for b in picks:
+                n = len(b)
+                limits = sorted(set(x for x in (0, 1, n // 2, n - 1, n, n + 1, n + 4) if x >= 0))
+                if quick and len(limits) > 4:
+                    limits = sorted(set([limits[0], n - 1 if n else 0, n, n + 1] + [rng.choice(limits)]))
+                for lim in [None] + limits:
+                    for tail in ([b"", bytes(rng.randint(0, 255) for _ in range(3))] if not quick
+                                 else [bytes(rng.randint(0, 255) for _ in range(rng.choice([0, 2])))]):
+                        modes = ["wrap"] if name in L.SHARED else (["kw", "wrap"] if not quick else [rng.choice(["kw", "wrap"])])
+                        for mode in modes:
+                            yield {"op": "lib", "m": name, "mode": mode, "limit": lim,
+                                   "chunks": split_chunks(rng, b + tail) if rng.random() < 0.3 else [(b + tail).hex()]}
+
+    def lib_instance(self, name, mode):
+        from corr import c10_lib as L
+        import cpppo
+        key = (name, mode)
+        if key not in self._inst:
+            m = self._fact[name]()
+            top = m if mode == "kw" else cpppo.dfa("wrap", initial=m, terminal=True)
+            self._inst[key] = L.Instrumented(top)
+        return self._inst[key]
+
+    def impl_lib(self, c):
+        from corr import c10_lib as L
+        if getattr(self, "_fact", None) is None:
+            self._fact, self._inst = L.factories(), {}
+            self._valid = None
+        inst = self.lib_instance(c["m"], c["mode"])
+        top = inst.top
+        top.limit = c["limit"]
+        states = [dict(inst.states[0], lim=None if c["limit"] is None else ["c", c["limit"]])] + inst.states[1:]
+        sess = L.CUR["s"] = L.Session()
+        inst.reset()
+        all_input = b"".join(bytes.fromhex(x) for x in c["chunks"])
+        out, src, pend, data = run_real(top, c["chunks"], data=L.LogDict(), path=None)
+        sent, peek = src.sent, show_peek(src)
+        key = json.dumps(c, sort_keys=True)
+        tape = [v if isinstance(v, int) and not isinstance(v, bool) and v >= 0 else None for v in sess.tape]
+        if sess.data_exception or (None in tape) or out.split()[0] not in (
+                "ok", "reject:NonTerminal", "reject:AssertionError"):
+            line = "reject:data"
+            self._line[key] = "echo reject:data"
+        else:
+            if out == "ok":
+                line = "ok %d %s %d %s" % (sent, peek, 1 if top.terminal else 0, inst.dfa_states())
+            else:
+                line = "%s %d %s" % (out, sent, peek)
+            self._line[key] = eng_line(states, 0, c["chunks"], tape)
+        why = property_verdict(sess.records, out, all_input, sent, drain(src, pend))
+        if not why and out == "ok" and c["limit"] is not None and sent > c["limit"]:
+            why = f"{c['m']} completed having consumed {sent} symbols with limit {c['limit']}"
+        self._why[key] = why
+        return line
+
     # ---------------------------------------------------------------------------------------- lines
     def model_line(self, c):
         if c["op"] == "src":
             return "src %s %s" % (hexs(bytes.fromhex(c["init"])), ",".join(c["ops"]) or "-")
         if c["op"] == "eng":
             return eng_line(c["states"], c["top"], c["chunks"], [])
+        if c["op"] == "lib":
+            key = json.dumps(c, sort_keys=True)
+            if key not in self._line:
+                self.impl_lib(c)
+            return self._line[key]
         raise ValueError(c["op"])
 
     # ---------------------------------------------------------------------------------------- impl
@@ -574,6 +686,8 @@ class C10(Suite):
             return self.impl_src(c)
         if c["op"] == "eng":
             return self.impl_eng(c)
+        if c["op"] == "lib":
+            return self.impl_lib(c)
         raise ValueError(c["op"])
 
     def impl_src(self, c):
@@ -641,6 +755,8 @@ class C10(Suite):
             return out
         if c["op"] == "src":
             return self.oracle_src(c, out)
+        if c["op"] == "lib":
+            return self._why.get(json.dumps(c, sort_keys=True))
         if out.split()[0] not in ("ok", "reject:NonTerminal", "reject:AssertionError"):
             return "unexpected outcome " + out
         return self._why.get(self.model_line(c))
@@ -677,6 +793,8 @@ class C10(Suite):
     def nontrivial(self, c, out):
         if c["op"] == "src":
             return self.model_line(c) if len(c["ops"]) >= 3 else None
+        if c["op"] == "lib":
+            return json.dumps(c, sort_keys=True) if c["limit"] is not None and out != "reject:data" else None
         toks = out.split()
         if len(toks) > 1 and toks[1].lstrip("-").isdigit() and int(toks[1]) > 0 and any(
                 s.get("lim") or (s["k"] == "D" and s.get("rep")) for s in c["states"]):
@@ -686,6 +804,10 @@ class C10(Suite):
     def classify(self, c, out):
         if c["op"] == "src":
             return "src"
+        if c["op"] == "lib":
+            n = len(b"".join(bytes.fromhex(x) for x in c["chunks"]))
+            rel = "nolimit" if c["limit"] is None else "limit"
+            return "lib:%s:%s:%s" % (c["m"].split(":")[0].split(".")[0] if c["m"].startswith(("typed", "octets", "words")) else c["m"], rel, out.split()[0])
         return "%s:%s" % (c.get("fam", "eng"), out.split()[0])
 
     def shrink(self, c):
